@@ -657,6 +657,8 @@ func (se *SessionExecutor) handleKeepSessionPing() (err error) {
 			}
 			ksConn.Recycle()
 		}
+		// they are back in their pools: the session must not use or recycle them again
+		se.ksConns = make(map[string]backend.PooledConnect)
 		return mysql.ErrBadConn
 	}
 
